@@ -17,7 +17,7 @@ from ..raises import RaiseAnalysis
 EXPLANATION = (
     "C34.1 may-raise summary of format_tag_value through its resolved callees (parse_tag_value, str2literal, int/float/json.loads facts) "
     "minus enclosing try/except: nothing may escape; C34.2 every `return <value>` (unquoted display) is dominated by the true edge of "
-    "isinstance(parse_tag_value(<value>), str) and isinstance(<value>, str); every other return is json.dumps(<value>); C34.3 parse_tag_value "
+    "`parse_tag_value(<value>) == <value>` and isinstance(<value>, str); every other return is json.dumps(<value>); C34.3 parse_tag_value "
     "JSON-decodes exactly the strings starting with [ { \" and falls back int -> float -> literal -> str."
 )
 
@@ -45,15 +45,23 @@ def run(ctx):
     else:
         r1.good(f"{m.rel}:format_tag_value:total", "no escaping exception")
 
-    r2 = ctx.rule("C34.2", "unquoted display only behind `re-parses as str`; otherwise JSON", floor=2)
+    r2 = ctx.rule("C34.2", "unquoted display only behind `re-parses to itself`; otherwise JSON", floor=2)
     cfg = CFG(fn)
     for n in cfg.nodes:
         if n.kind == "stmt" and isinstance(n.ast, ast.Return):
             v = n.ast.value
             if v is not None and src(v) == param:
                 facts = facts_at(cfg, n)
-                ok = (f"isinstance(parse_tag_value({param}), str)", True) in facts and (f"isinstance({param}, str)", True) in facts
-                r2.check(ok, f"{m.rel}:format_tag_value:return-raw", "a value is displayed unquoted without the guarantee that it is a string that re-parses as a string", m.rel, n.lineno)
+                eqs = {f"parse_tag_value({param}) == {param}", f"{param} == parse_tag_value({param})"}
+                ok = any((e, True) in facts for e in eqs) and (f"isinstance({param}, str)", True) in facts
+                r2.check(
+                    ok,
+                    f"{m.rel}:format_tag_value:return-raw",
+                    f"a string is displayed unquoted without the guarantee `parse_tag_value({param}) == {param}`: a weaker guard (e.g. `isinstance(parse_tag_value({param}), str)`) lets a string "
+                    "that is itself a JSON string literal such as '\"abc\"' through, which re-parses as 'abc'",
+                    m.rel,
+                    n.lineno,
+                )
             else:
                 ok = isinstance(v, ast.Call) and call_name(v) == "json.dumps" and v.args and src(v.args[0]) == param
                 r2.check(bool(ok), f"{m.rel}:format_tag_value:return-json", f"non-raw display is not json.dumps({param}, ...): {src(v)}", m.rel, n.lineno)
